@@ -211,6 +211,9 @@ def run(ctx):
 
     r7 = ctx.rule("C20.R7", "COMPOSE: the merge of requirements and user settings takes every TUPLE for a built-in default and does not length-check it, so a wrong-length override written as a tuple (a specification built in python) is rejected only if the schema's array type refuses tuples; decided as a pair: schema/validator.py's array type check (the classes it accepts) and reduce_paramsets_requirements interpreted on a three-entry tuple override for a two-component parameter set -- at least one of them refuses", "PAIR", floor=1)
     _tuple_overrides(ctx, r7, repo)
+    r8 = ctx.rule("C20.R8", "MODEL-HISTORY (interpreted, engine shared with C16.R7 / C12.R12): whether a workspace's measurement defines a POI is decided by the measurement as stored, on every call: Workspace.model() on one real Workspace object with a POI override or a POI-less request in between hands Model the measurement's own POI again afterwards and never rewrites the stored measurement (an undefined POI stays undefined, hence refused, whatever was asked before)", "HISTORY", floor=1)
+    from .c16 import model_history
+    model_history(ctx, r8, repo)
 
     # ------------------------------------------------------------ R5
     none_keys = set()
